@@ -32,6 +32,8 @@ Keep == popped' = popped
 PopSnap == snaps # <<>> /\ popped' = snaps[Len(snaps)] /\ snaps' = SubSeq(snaps, 1, Len(snaps) - 1)
 
 TEnter    == Consume /\ E.ev = "enter" /\ Enter(E.c) /\ snaps' = Append(snaps, prev) /\ Keep
+TEnterC   == Consume /\ E.ev = "enter_const" /\ EnterConst /\ snaps' = Append(snaps, prev) /\ Keep
+TSetIgnIn == Consume /\ E.ev = "setign_in" /\ SetIgnInside(E.c = 1) /\ snaps' = snaps /\ Keep
 TRejected == Consume /\ E.ev = "rejected" /\ EnterRejected /\ snaps' = snaps /\ Keep
 TLeave    == Consume /\ E.ev = "leave" /\ Leave /\ PopSnap
 TAbort    == Consume /\ E.ev = "abort" /\ Unwind /\ PopSnap
@@ -46,7 +48,7 @@ TMarker   == Consume /\ E.ev = "marker" /\ UNCHANGED vars /\ snaps' = snaps /\ K
 \* the exception reached the top level of the script: silent step, bounded (enabled only while unwinding at depth 0)
 TEscape   == Escape /\ UNCHANGED <<tid, l, snaps, prev, before, popped>>
 
-TNext == TEnter \/ TRejected \/ TLeave \/ TAbort \/ TRaise \/ TTry \/ TTryDone \/ TCaught \/ TCall \/ TSetIgn \/ TMarker \/ TEscape
+TNext == TEnter \/ TEnterC \/ TSetIgnIn \/ TRejected \/ TLeave \/ TAbort \/ TRaise \/ TTry \/ TTryDone \/ TCaught \/ TCall \/ TSetIgn \/ TMarker \/ TEscape
 TSpec == TInit /\ [][TNext]_tvars
 
 ---------------------------------------------------------------------------
